@@ -8,7 +8,7 @@ from common import *
 from regexlib import gen_tables
 
 ATTR = {"e": "C20", "b": "C20", "q": "C02", "wq": "C02", "x": "C02", "xa": "C02", "w": "C03",
-        "a": "C06", "d": "C06", "u": "C04", "redo": "C04", "se": "C02"}
+        "a": "C06", "d": "C06", "u": "C04", "redo": "C04", "se": "C02", "line": "C02", "top": "C06"}
 
 
 def fnv(lines):
@@ -268,7 +268,7 @@ def bufs_check(ctx, own, nscripts, nsteps, mc_consts, rule, assumptions):
         if r["status"] == "mismatch":
             k = r["cmd"]["k"]
             prop = ATTR.get(k, own)
-            if r["field"] in ("quit", "dirty-unsound", "dirty", "msg") and k in ("e", "b", "q", "wq", "x", "xa", "se"):
+            if r["field"] in ("quit", "dirty-unsound", "dirty", "msg") and k in ("e", "b", "q", "wq", "x", "xa", "se", "line"):
                 prop = "C02"
             if r["field"] in ("table", "path", "text", "row", "undo") and k in ("e", "b"):
                 prop = "C20"
